@@ -1,10 +1,12 @@
 package main
 
 import (
+	"context"
 	"encoding/json"
 	"flag"
 	"fmt"
 	"os"
+	"os/exec"
 	"path/filepath"
 	"runtime"
 	"runtime/debug"
@@ -229,16 +231,44 @@ func handleViolation(scn *Scenario, res *RunResult) ViolationRef {
 		}
 	}
 	min, v, info := minimise(rec, res.Viol, 45*time.Second, 300)
-	// final confirmation in this process; a fresh process confirms again on replay
-	if r3 := execute(min); sameFailure(r3, res.Viol) {
-		rf = &ReplayFile{Violation: v, Tree: treeSHA, Minimised: true, MinInfo: info, Scenario: *min}
-		if err := writeJSON(path, rf); err != nil {
+	// Confirm in a FRESH OS process: the replay file must fail the same way
+	// there. Candidates in order of preference: minimised; recorded schedule;
+	// original seeded scenario; original scenario after the worker's history
+	// (package-level state left behind by earlier runs).
+	orig := scn.clone()
+	cands := []*ReplayFile{
+		{Violation: v, Tree: treeSHA, Minimised: true, MinInfo: info, Scenario: *min},
+		{Violation: res.Viol, Tree: treeSHA, Scenario: *rec},
+		{Violation: res.Viol, Tree: treeSHA, Scenario: *orig},
+		{Violation: res.Viol, Tree: treeSHA, Scenario: *orig, History: true},
+	}
+	for _, c := range cands {
+		if err := writeJSON(path, c); err != nil {
 			fmt.Fprintln(os.Stderr, "cannot write replay file:", err)
 			os.Exit(2)
 		}
-		return ViolationRef{Replay: path, Viol: v}
+		if confirmFresh(path) {
+			c.FreshConfirmed = true
+			writeJSON(path, c)
+			return ViolationRef{Replay: path, Viol: c.Violation}
+		}
 	}
+	// nothing reproduced in a fresh process: keep the history form (the most
+	// faithful one) and say so
+	fmt.Fprintf(os.Stderr, "note: %s did not reproduce in a fresh process; kept with the worker history\n", path)
 	return ViolationRef{Replay: path, Viol: res.Viol}
+}
+
+// confirmFresh re-executes a replay file in a fresh OS process.
+func confirmFresh(path string) bool {
+	ctx, cancel := context.WithTimeout(context.Background(), 300*time.Second)
+	defer cancel()
+	cmd := exec.CommandContext(ctx, os.Args[0], "replay", "-file", path, "-tree", treeSHA, "-fixtures", fixtureDir)
+	err := cmd.Run()
+	if ee, ok := err.(*exec.ExitError); ok {
+		return ee.ExitCode() == 1
+	}
+	return false
 }
 
 func cmdReplay(args []string) {
@@ -270,7 +300,20 @@ func cmdReplay(args []string) {
 		debug.SetMemoryLimit(3 << 30)
 	}
 	startWatchdog(180 * time.Second)
+	tStart := time.Now()
 	for i := 0; i < *tries; i++ {
+		if i > 0 && time.Since(tStart) > 150*time.Second {
+			break
+		}
+		if rf.History || scn.Lane == "race" {
+			// re-create the package-level state the worker process had
+			for r := 0; r < scn.Run; r++ {
+				execute(generate(scn.Prop, scn.Tier, scn.Lane, scn.Seed, scn.Worker, r))
+				if scn.Lane == "sim" && r%16 == 15 {
+					runtime.GC()
+				}
+			}
+		}
 		res := execute(scn)
 		if res.Viol != nil && (rf.Violation == nil || (res.Viol.Oracle == rf.Violation.Oracle)) {
 			fmt.Printf("REPRODUCED %s\n", res.Viol)
